@@ -60,7 +60,8 @@ def main():
         out = os.path.join(VERIF, 'refactors', name)
         os.makedirs(out, exist_ok=True)
         for f in ('patch.diff', 'meta.json', 'check.py'):
-            if os.path.exists(os.path.join(src, f)):
+            if os.path.exists(os.path.join(src, f)) and \
+                    os.path.realpath(src) != os.path.realpath(out):
                 shutil.copy(os.path.join(src, f), os.path.join(out, f))
         meta['verification'] = {'suite_ok': res['suite_ok'],
                                 'check_results': res['checks']}
